@@ -40,7 +40,7 @@ class XmlEventHandler(XmlHandler):
             xinclude.include(root, loader=loader)
             ctx = iterwalk(root, {})
         else:
-            ctx = etree.iterparse(source, EVENTS)  # nosec
+            ctx = iterparse(source)
 
         return self.process_context(ctx, ns_map)
 
@@ -113,6 +113,24 @@ class XmlEventHandler(XmlHandler):
             result[prefix] = uri
 
         return result
+
+
+def iterparse(source: Any) -> Iterator[tuple[str, Any]]:
+    """Incrementally parse the source and emit events.
+
+    Expat only supports single byte encodings, report everything else
+    (multi-byte or stateful codecs) as an unsupported document.
+    """
+    context = iter(etree.iterparse(source, EVENTS))  # nosec
+    while True:
+        try:
+            item = next(context)
+        except StopIteration:
+            return
+        except ValueError as e:
+            raise XmlHandlerError(f"Unsupported document encoding: {e}")
+
+        yield item
 
 
 def iterwalk(element: etree.Element, ns_map: dict) -> Iterator[tuple[str, Any]]:
